@@ -116,7 +116,7 @@ pub(crate) fn parse_directive(jsx_attr: &JSXAttr, is_component: bool) -> Directi
         }
     } else if let Some(JSXAttrValue::Lit(lit)) = &jsx_attr.value {
         modifiers = Some(splitted.map(Atom::from).collect());
-        value = Expr::Lit(lit.clone());
+        value = jsx_string_to_js(lit);
     } else {
         modifiers = Some(splitted.map(Atom::from).collect());
         value = Expr::Ident(quote_ident!("").into());
@@ -172,7 +172,7 @@ fn parse_modifiers(exprs: &[Option<ExprOrSpread>]) -> BTreeSet<Atom> {
 
 fn parse_v_text_directive(jsx_attr: &JSXAttr) -> Directive {
     let expr = match &jsx_attr.value {
-        Some(JSXAttrValue::Lit(lit)) => Expr::Lit(lit.clone()),
+        Some(JSXAttrValue::Lit(lit)) => jsx_string_to_js(lit),
         Some(JSXAttrValue::JSXExprContainer(JSXExprContainer {
             expr: JSXExpr::Expr(expr),
             ..
@@ -204,7 +204,7 @@ fn parse_v_text_directive(jsx_attr: &JSXAttr) -> Directive {
 
 fn parse_v_html_directive(jsx_attr: &JSXAttr) -> Directive {
     let expr = match &jsx_attr.value {
-        Some(JSXAttrValue::Lit(lit)) => Expr::Lit(lit.clone()),
+        Some(JSXAttrValue::Lit(lit)) => jsx_string_to_js(lit),
         Some(JSXAttrValue::JSXExprContainer(JSXExprContainer {
             expr: JSXExpr::Expr(expr),
             ..
@@ -365,6 +365,15 @@ fn transform_modifiers(modifiers: BTreeSet<Atom>, quote_prop: bool) -> Option<Ex
                 })
                 .collect(),
         }))
+    }
+}
+
+/// A JSX attribute string has no escape sequences: its text must not be reused as the source
+/// text of a JavaScript string literal (`v-html="C:\users"`).
+fn jsx_string_to_js(lit: &Lit) -> Expr {
+    match lit {
+        Lit::Str(str) => Expr::Lit(Lit::Str(quote_str!(str.value.clone()))),
+        lit => Expr::Lit(lit.clone()),
     }
 }
 
